@@ -37,38 +37,88 @@ def locate_job_block(repo):
     return text, first, last
 
 
-def run_slice(repo, contig_lists):
-    text, first, last = locate_job_block(repo)
-    code = compile(text, 'bamtagmultiome.py[%d:%d]' % (first, last), 'exec')
-    from singlecellmultiomics.universalBamTagger.tagging import generate_tasks
-    outs = []
-    for cl in contig_lists:
-        calls = []
+class _Captured(BaseException):
+    pass
 
-        def stub(path, with_length=False, _cl=cl, _calls=calls):
-            _calls.append((path, with_length))
-            for c, l in _cl:
-                yield (c, l) if with_length else c
-        ns = {'get_contigs_with_reads': stub, 'input_bam_path': 'INPUT.bam', '__builtins__': __builtins__}
+
+def run_slice(repo, contig_lists, force_route=None):
+    """job list the real code builds for a list of (contig, length) with reads.  Primary route: call the real
+    tag_multiome_multi_processing(one_contig_per_process=True) with get_contigs_with_reads stubbed and generate_tasks
+    intercepted (the job list it is handed is recorded and the call is abandoned there) - this survives any restructuring
+    of the function body.  Fallback route: the `if one_contig_per_process:` block located in the AST and executed from the
+    current source lines in the module's own namespace."""
+    import singlecellmultiomics.universalBamTagger.bamtagmultiome as tm
+    from singlecellmultiomics.universalBamTagger.tagging import generate_tasks
+    route, code, text, first, last = 'call-interception', None, '', 0, 0
+    if force_route or not (hasattr(tm, 'get_contigs_with_reads') and hasattr(tm, 'generate_tasks')):
+        route = 'source-slice'
+    saved = {k: getattr(tm, k) for k in ('get_contigs_with_reads', 'generate_tasks') if hasattr(tm, k)}
+    outs = []
+    try:
+        for cl in contig_lists:
+            calls = []
+
+            def stub(path, with_length=False, _cl=cl, _calls=calls):
+                _calls.append((path, with_length))
+                for c, l in _cl:
+                    yield (c, l) if with_length else c
+            try:
+                tm.get_contigs_with_reads = stub
+                job_gen = None
+                if route == 'call-interception':
+                    box = []
+
+                    def capture(*a, **kw):
+                        jg = kw.get('job_gen', a[1] if len(a) > 1 else None)
+                        box.append([list(j) for j in jg])
+                        raise _Captured()
+                    tm.generate_tasks = capture
+                    try:
+                        tm.tag_multiome_multi_processing(
+                            input_bam_path='INPUT.bam', out_bam_path=os.path.join(os.getcwd(), 'never_written.bam'),
+                            molecule_iterator_args={}, fragment_size=500, bp_per_job=10 ** 7, bp_per_segment=10 ** 6,
+                            temp_folder_root=os.getcwd(), one_contig_per_process=True, use_pool=False, additional_args={})
+                    except _Captured:
+                        job_gen = box[0]
+                    finally:
+                        tm.generate_tasks = saved['generate_tasks']
+                    if job_gen is None:
+                        raise RuntimeError('tag_multiome_multi_processing returned without handing a job list to generate_tasks')
+                else:
+                    if code is None:
+                        text, first, last = locate_job_block(repo)
+                        code = compile(text, 'bamtagmultiome.py[%d:%d]' % (first, last), 'exec')
+                    ns = dict(tm.__dict__)
+                    ns.update({'get_contigs_with_reads': stub, 'input_bam_path': 'INPUT.bam'})
+                    exec(code, ns)
+                    job_gen = ns['job_gen']
+                tasks = list(generate_tasks(input_bam_path='INPUT.bam', temp_folder='TMP', job_gen=job_gen,
+                                            iteration_args={}, additional_args={}))
+                jobs = []
+                for (p, t, to), arglist in tasks:
+                    job = []
+                    for a in arglist:
+                        if any(a[k] is not None for k in ('start', 'end', 'fetch_start', 'fetch_end')):
+                            raise RuntimeError('contig-per-process task with a region: %r' % (a,))
+                        job.append(a['contig'])
+                    jobs.append(job)
+                if any(p != 'INPUT.bam' for p, _ in calls):
+                    raise RuntimeError('job block reads contigs from another file: %r' % (calls,))
+                outs.append({'jobs': jobs})
+            except BaseException as e:
+                outs.append({'error': '%s: %s' % (type(e).__name__, e)})
+    finally:
+        for k, v in saved.items():
+            setattr(tm, k, v)
+    if route == 'call-interception' and outs and all('error' in o for o in outs):
+        # the entry point could not be driven this way at all (changed signature ...): try the source slice instead
         try:
-            exec(code, ns)
-            job_gen = ns['job_gen']
-            tasks = list(generate_tasks(input_bam_path='INPUT.bam', temp_folder='TMP', job_gen=job_gen,
-                                        iteration_args={}, additional_args={}))
-            jobs = []
-            for (p, t, to), arglist in tasks:
-                job = []
-                for a in arglist:
-                    if any(a[k] is not None for k in ('start', 'end', 'fetch_start', 'fetch_end')):
-                        raise RuntimeError('contig-per-process task with a region: %r' % (a,))
-                    job.append(a['contig'])
-                jobs.append(job)
-            if any(p != 'INPUT.bam' for p, _ in calls):
-                raise RuntimeError('job block reads contigs from another file: %r' % (calls,))
-            outs.append({'jobs': jobs})
-        except BaseException as e:
-            outs.append({'error': '%s: %s' % (type(e).__name__, e)})
-    return {'lines': [first, last], 'source': text, 'outs': outs}
+            alt = run_slice(repo, contig_lists, force_route=True)
+            if not all('error' in o for o in alt['outs']):
+                return alt
+        except BaseException:
+            pass
+    return {'lines': [first, last], 'source': text, 'route': route, 'outs': outs}
 
 
 # ----------------------------------------------------------------------------- BAM writing / reading
